@@ -309,11 +309,32 @@ def gen_surface(rng, tier):
             else:
                 es.insert(rng.randrange(len(es) + 1), fe)
             E = [list(e) if rng.random() < 0.7 else [e[1], e[0]] for e in es]   # some given as (max, min)
+        degenerate = rng.random() < 0.05
+        if degenerate:     # valid combinatorics, degenerate geometry: coincident vertices / everything in one point / flat faces
+            mode = rng.choice(["all-equal", "two-coincide", "collinear"])
+            if mode == "all-equal":
+                V = [[1, 2, 3] for _ in V]
+            elif mode == "two-coincide":
+                V[F[0][1]] = list(V[F[0][0]])
+            else:
+                V = [[i_, 0, 0] for i_ in range(len(V))]
+            c = {"kind": "surface", "V": V, "F": [list(f) for f in F], "shape": shape + "+degenerate-" + mode, "planar": False,
+                 "degenerate": True}
+            if E is not None:
+                c["E"] = E
+            return c
         if nondegenerate_faces(V, F) and (not shape.startswith(("planar-grid", "height-field")) or projection_embedded(V, F)):
             planar = all(p[2] == V[0][2] for p in V) and all(p[2] == 0 for p in V)
             c = {"kind": "surface", "V": V, "F": [list(f) for f in F], "shape": shape, "planar": planar}
             if E is not None:
                 c["E"] = E
+            r3 = rng.random()
+            if r3 < 0.06:
+                c["scale"] = -20
+            elif r3 < 0.12:
+                c["scale"] = 24
+            if rng.random() < 0.08:
+                c["sort_neighborhoods"] = False
             return c
     raise RuntimeError("generator failed to produce a non-degenerate surface")
 
@@ -370,8 +391,17 @@ def gen_volume(rng, tier):
             rng.shuffle(c)
             C2.append(c)
         rng.shuffle(C2)
+        if rng.random() < 0.05:
+            V2 = [[1, 1, 1] for _ in V2] if rng.random() < 0.5 else [[i_, 0, 0] for i_ in range(len(V2))]
+            return {"kind": "volume", "V": V2, "C": C2, "shape": shape + "+degenerate", "degenerate": True}
         if nondegenerate_cells(V2, C2):
-            return {"kind": "volume", "V": V2, "C": C2, "shape": shape}
+            c = {"kind": "volume", "V": V2, "C": C2, "shape": shape}
+            r3 = rng.random()
+            if r3 < 0.06:
+                c["scale"] = -20
+            elif r3 < 0.12:
+                c["scale"] = 24
+            return c
     raise RuntimeError("generator failed to produce a non-degenerate tet mesh")
 
 
@@ -421,6 +451,7 @@ Q_CLOSE_PLANAR = {"lap:1", "ced:1", "ced:0", "laptri:1", "lapedges:1", "massv:0,
 Q_CLOSE_VOL = {"massvv:0,0", "massvv:1,0", "massvc:0,0", "massvc:1,0"}
 
 
+COMBINATORIAL = {"lap:0", "glap", "laptri:0", "lapedges:0", "adj:one", "adj:custom", "v2e:0", "v2e:1", "v2f", "tetlap"}
 SURF_PRE = ["face_area", "cotangent", "corner_angles", "face_normals", "vertex_normals", "edge_length"]
 VOL_PRE = ["cell_volume", "edge_length", "face_area"]
 LINE_PRE = ["edge_length"]
@@ -441,6 +472,9 @@ def finish_case(rng, c, sequence=None):
         ops = list(LINE_OPS)
         pre = LINE_PRE
     c["custom_w"] = [rng.randint(-8, 24) / 4.0 for _ in range(200)]
+    if c.get("degenerate"):     # coincident vertices / flat faces: only the operators that never look at coordinates
+        ops = [o for o in ops if o in COMBINATORIAL]
+        pre = []
     if sequence is None:
         sequence = "seq" in c
     if sequence and "seq" not in c:
@@ -457,10 +491,18 @@ def finish_case(rng, c, sequence=None):
             seq[k:k] = [plain, o, plain]
         for _ in range(rng.randint(1, 3)):
             seq.append(rng.choice(seq))
+        # calls that must be refused, after which the mesh must be as before and later answers unchanged
+        for bad_ in ("bad:weights", "bad:meshtype"):
+            if rng.random() < 0.3:
+                seq.insert(rng.randrange(1, len(seq) + 1), bad_)
         c["seq"] = seq
         c["pre"] = [a for a in pre if rng.random() < 0.35]
         rng.shuffle(c["pre"])
     c["ops"] = list(c["seq"]) if "seq" in c else ops
+    # call form of every call: flags as bool / int / numpy.bool_, options by keyword / position / omitted at their default,
+    # scipy format name for the mass matrices, value and key types of the custom weights
+    if "forms" not in c or len(c["forms"]) != len(c["ops"]):
+        c["forms"] = [rng.randrange(72) for _ in c["ops"]]
     return c
 
 
@@ -549,6 +591,8 @@ def out_terms(case, obs, keep, finite_only=False):
     for nm, o in results_of(case, obs):
         if not keep(nm):
             continue
+        if o is not None and "raised" in o:
+            continue      # a refused call returns no matrix
         if o is None or "error" in o:
             return None
         if finite_only and any(isinstance(x_, str) for e_ in o["ent"] for x_ in e_):
@@ -577,8 +621,9 @@ def case_term(case, obs, keep=lambda nm: True):
     outs = out_terms(case, obs, keep, finite_only)
     if outs is None:
         return None
-    return "(mkcase %s %s %s %s %s)" % (
+    return "(mkcase %s %s %s %s %s %s)" % (
         coq_list([zt(p) for p in case["V"]]),
+        zlit(int(case.get("scale", 0))),
         coq_list([zt(f) for f in case.get("F", [])]),
         coq_list([zt(c) for c in case.get("C", [])]),
         coq_list([zt(e) for e in obs["edges"]]),
@@ -661,6 +706,12 @@ def oracle(case, obs):
     first, last = {}, {}
     for k, st in enumerate(obs["steps"]):
         nm = st["op"]
+        if nm.startswith("bad:"):
+            if "error" in st or not st.get("raised"):
+                bad.append(("seq/bad-call-accepted", "call %d (%s) was not refused with an exception (%s)" % (k, nm, st.get("error"))))
+            if st.get("mutated"):
+                bad.append(("seq/mutates-mesh", "the refused call %d (%s) changed data stored on the mesh: %s" % (k, nm, ", ".join(st["mutated"]))))
+            continue
         if st.get("mutated"):
             bad.append(("seq/mutates-mesh", "call %d (%s) changed data already stored on the mesh: %s" % (k, nm, ", ".join(st["mutated"]))))
         if nm in first and not same_result(first[nm], st):
@@ -679,12 +730,17 @@ def oracle(case, obs):
 
 
 def oracle_outs(case, obs):
+    with np.errstate(all="ignore"):
+        return oracle_outs_(case, obs)
+
+
+def oracle_outs_(case, obs):
     """Returns a list of (class-key, message) for every clause of C08 the observed matrices violate."""
     bad = []
     if "error" in obs:
         return [("build", "mesh construction failed: " + obs["error"])]
     outs = obs["outs"]
-    V = np.array(case["V"], dtype=float)
+    V = np.array(case["V"], dtype=float) * 2.0 ** int(case.get("scale", 0))
     n = len(V)
     E = [tuple(e) for e in obs["edges"]]
     m = len(E)
@@ -831,7 +887,7 @@ def oracle_outs(case, obs):
         for (a, b, c) in F:
             for (i, j, k) in ((a, b, c), (b, c, a), (c, a, b)):      # edge (i, j), opposite vertex k
                 u, w = V[i] - V[k], V[j] - V[k]
-                cotsum[eid[(min(i, j), max(i, j))]] += float(np.dot(u, w)) / float(np.linalg.norm(np.cross(u, w)))
+                cotsum[eid[(min(i, j), max(i, j))]] += np.float64(np.dot(u, w)) / np.float64(np.linalg.norm(np.cross(u, w)))
         C0 = get("ced:0", (m, m))
         if C0 is not None and not close(C0, np.diag(cotsum)):
             bad.append(("ced:0/value", "cotan_edge_diagonal(inverse=False) is not the sum of the opposite cotangents"))
@@ -1036,6 +1092,8 @@ def shrink(case, key, budget=45):
                 for i in range(len(cur[field])):
                     cand = dict(cur)
                     cand[field] = cur[field][:i] + cur[field][i + 1:]
+                    if field == "seq":
+                        cand["forms"] = cur["forms"][:i] + cur["forms"][i + 1:]
                     cand["ops"] = list(cand["seq"])
                     if fails(cand):
                         cur = cand
@@ -1085,7 +1143,12 @@ def run(ctx):
                 "3 cases in 5: every operator with every option, each on a fresh mesh; 2 in 5: a random call SEQUENCE (with repeats, "
                 "option variants between two plain calls) on ONE mesh object after a random set of mouette.attributes was computed "
                 "persistently, each answer compared with the model, repeated answers compared with each other, and a snapshot of "
-                "everything stored on the mesh taken before/after each call; "
+                "everything stored on the mesh taken before/after each call, every returned matrix clobbered after it was read, "
+                "refused calls (bad weights name, wrong mesh type) interleaved; every call in a random CALL FORM (flags as bool / int / "
+                "numpy.bool_, options by keyword / positional / omitted at their default, scipy format names for the mass matrices, "
+                "custom weights as float / numpy.float32 / numpy.float64 with int / numpy.int64 keys); ~12 % of the meshes rescaled by "
+                "2^-20 or 2^24, ~5 % with degenerate geometry (combinatorial operators only), ~8 % with "
+                "mouette.config.sort_neighborhoods switched off, genus 1, two components, explicit edge lists with reversed / free edges; "
                 "tet meshes (1, 2, 5-/6-tet cubes, 1->4 split, jitter, permuted cells); polylines (paths, cycles, stars, trees+chords). "
                 "Every operator with every option on a fresh mesh. Non-trivial = surface with an interior edge / >= 2 cells / >= 2 edges; "
                 "distinct = canonical JSON of (V, elements)")
@@ -1114,6 +1177,15 @@ def run(ctx):
         ctx.count("mode=" + ("call sequence on one mesh" if "seq" in c else "every operator on a fresh mesh"))
         for a_ in c.get("pre", []):
             ctx.count("pre-computed attribute " + a_)
+        if c.get("scale"):
+            ctx.count("coordinates scaled by 2^%d" % c["scale"])
+        if c.get("degenerate"):
+            ctx.count("degenerate geometry, combinatorial operators only")
+        if c.get("sort_neighborhoods") is False:
+            ctx.count("mouette.config.sort_neighborhoods = False")
+        for f_ in c["forms"]:
+            ctx.count("call form: flags as %s, options %s" % (["bool", "int", "numpy.bool_", "bool"][f_ % 4],
+                                                              ["by keyword", "positional", "omitted at default"][(f_ // 4) % 3]))
         ctx.count("shape=" + c["shape"])
         ne = len(c.get("F") or c.get("C") or c.get("E"))
         ctx.count("%s elements<=%d" % (c["kind"], 1 if ne <= 1 else 4 if ne <= 4 else 12 if ne <= 12 else 24 if ne <= 24 else 60))
@@ -1168,7 +1240,7 @@ def run(ctx):
                        "; ".join("case %d %s" % d_ for d_ in dropped[:5]) + (" ... %d in all" % len(dropped) if len(dropped) > 5 else ""))
         for d_ in dropped:
             ctx.count("dropped before the kernel batch")
-        r = ctx.run_cases("float", HEADER, terms, "check_float", case_type="case", shard=12 if quick else 16)
+        r = ctx.run_cases("float", HEADER, terms, "check_float", case_type="case", shard=12 if quick else 10)
         bads["float"] = [ids[i] for i in (r or [])]
         if r is None:
             bads["float-eval"] = [-1]
